@@ -583,7 +583,7 @@ pub fn mean(values: &[Value]) -> Value {
       return invalid_argument_type!("mean", "number", value.type_of());
     }
   }
-  Value::Number(sum / values.len().into())
+  finite_number(sum / values.len().into())
 }
 
 /// Returns the median of numbers.
@@ -602,7 +602,7 @@ pub fn median(values: &[Value]) -> Value {
   list.sort_by(|x, y| x.partial_cmp(y).unwrap_or(std::cmp::Ordering::Equal));
   let index = values.len() / 2;
   if list.len() % 2 == 0 {
-    Value::Number((list[index - 1] + list[index]) / FeelNumber::two())
+    finite_number((list[index - 1] + list[index]) / FeelNumber::two())
   } else {
     Value::Number(list[index])
   }
@@ -1017,7 +1017,7 @@ pub fn sum(values: &[Value]) -> Value {
         return invalid_argument_type!("sum", "number", value.type_of());
       }
     }
-    Value::Number(sum)
+    finite_number(sum)
   } else {
     invalid_argument_type!("sum", "number", values[0].type_of())
   }
